@@ -66,7 +66,7 @@ async def run_config(ctx, tree, kind, seqs, rnd, results):
         body = peers.body_bytes(v, kr.size)
         abort = q.head.get('X-Verif-Abort') == '1' and kr.size > 1
         slow = q.head.get('X-Verif-Slow') == '1'
-        kr.ev.append({'e': 'OResp', 'v': v, 'key': kr.key, 'status': kr.status, 'len': kr.size})
+        kr.ev.append({'e': 'OResp', 'v': v, 'key': kr.key, 'status': kr.status, 'len': kr.size, 'whole': not abort})
         head = peers.response_head(kr.status, 'X', [('Content-Length', str(kr.size)), ('Cache-Control', 'max-age=3600'), ('Date', peers.http_date()),
                                                     ('X-Verif-Version', str(v)), ('X-Verif-Canary', str(v)), ('X-Verif-Origin', '1'), ('ETag', kr.etag)])
         if abort:
@@ -104,6 +104,7 @@ async def run_config(ctx, tree, kind, seqs, rnd, results):
                 bv = hv
         kr.ev.append({'e': 'CResp', 'key': kr.key, 'status': r.status or 0, 'hv': hv, 'bv': bv, 'canary': canary, 'blen': len(r.body),
                       'intact': bool(intact), 'complete': bool(r.complete), 'cs': (r.head.get('Cache-Status') or '') if r.head is not None else ''})
+        kr.ev[-1]['fromCache'] = (';hit' in kr.ev[-1]['cs'] or 'fwd-status=304' in kr.ev[-1]['cs']) and not getattr(r, 'timed_out', False)
 
     async def run_key(kr):
         for op in kr.ops:
@@ -117,7 +118,7 @@ async def run_config(ctx, tree, kind, seqs, rnd, results):
             elif op == 'reload':
                 await get(kr, [('Cache-Control', 'no-cache')])
             elif op == 'reval':
-                await get(kr, [('Cache-Control', 'max-age=0'), ('X-Verif-Reval', str(kr.rnd.choice([0, 300, 6000, 20000])))])
+                await get(kr, [('Cache-Control', 'max-age=0'), ('X-Verif-Reval', str(kr.rnd.choice([0, 300, 2000, 4500, 6000, 20000])))])
                 await get(kr)
             elif op == 'pair':
                 await asyncio.gather(get(kr), get(kr))
